@@ -26,8 +26,10 @@ GrpSeq1 == <<"grp1">>
 Traces == JsonDeserialize(IOEnv.TRACE_FILE)
 
 VARIABLES tid, l, st, bad, ok,
-          mgr      \* per slot: the HistoryManagers of the open contexts, as numbered by the hook observer
-vars == <<tid, l, st, bad, ok, mgr>>
+          mgr,     \* per slot: the HistoryManagers of the open contexts, as numbered by the hook observer
+          dig      \* per slot: digest of the RAW solver problem (every column, row, coefficient, objective
+                   \* coefficient and the direction, names sorted) observed at the Enter of each open context
+vars == <<tid, l, st, bad, ok, mgr, dig>>
 
 \* ------------------------------------------------------------ observed slot -> content
 PosIn(seq, x) == IF \E k \in 1..Len(seq) : seq[k] = x THEN (CHOOSE k \in 1..Len(seq) : seq[k] = x) - 1 ELSE Missing
@@ -48,7 +50,9 @@ ObsContent(o, Cexp) ==
    ann |-> [x \in AllIds |-> o.ann[x]], note |-> [x \in AllIds |-> o.note[x]],
    attr |-> [x \in AllIds |-> [name |-> o.attr[x].name, formula |-> o.attr[x].formula, charge |-> o.attr[x].charge,
                                subsys |-> o.attr[x].subsys, comp |-> o.attr[x].comp]],
-   xcols |-> SeqSet(o.lp.xcols), xrows |-> SeqSet(o.lp.xrows), solver |-> o.solver, tol |-> o.tol]
+   xcols |-> SeqSet(o.lp.xcols), xrows |-> SeqSet(o.lp.xrows), solver |-> o.solver, tol |-> o.tol,
+   \* the name of a compartment without metabolites is not observable (-1): carried over from the expectation
+   cname |-> [c \in 1..3 |-> IF o.cname[c] # -1 THEN o.cname[c] ELSE base.cname[c]]]
 RulesInSync(o, C) == o.present => \A r \in RxU : (r \in SeqSet(o.rxns) => RuleMatches(C.rule[r], o, r))
 
 \* ------------------------------------------------------------ (1) expected vs observed, one slot
@@ -81,6 +85,7 @@ SlotDiff(o, C, depth, helper) ==
      \cup (IF helper = 0 /\ SeqSet(o.lp.xrows) # C.xrows THEN {"xrows"} ELSE {})
      \cup (IF o.solver # C.solver THEN {"solver"} ELSE {})
      \cup (IF o.tol # C.tol THEN {"tol"} ELSE {})
+     \cup (IF \E c \in 1..3 : o.cname[c] # -1 /\ o.cname[c] # C.cname[c] THEN {"cname"} ELSE {})
      \cup (IF o.ctx # depth THEN {"ctx"} ELSE {})
 
 \* ------------------------------------------------------------ (2) invariants on the implementation state
@@ -198,6 +203,7 @@ Init ==
   /\ bad = {}
   /\ st = InitState
   /\ mgr = [s \in Slots |-> <<>>]
+  /\ dig = [s \in Slots |-> <<>>]
 
 ExpRet(op, S, res) ==
   IF op.a = "GetMedium" /\ IsModel(S.m[op.s]) THEN [ids |-> {}, n |-> 0, med |-> MediumOf(S.m[op.s])]
@@ -210,6 +216,25 @@ ArithDiffers(ev, op, S) ==
      \/ a.lb # e.lb \/ a.ub # e.ub
      \/ a.tt # TT(e.rule)
      \/ SeqSet(a.genes) # GenesOf(e.rule)
+\* read-only views of the model (reversibility, boundary, reactants / products, compartments, mass balance,
+\* boundary-type lists) against the content the specification holds
+B01(b) == IF b THEN 1 ELSE 0
+QueryDiffers(ev, op, S) ==
+  /\ op.a = "Query" /\ IsModel(S.m[op.s]) /\ QueryDecidable(S.m[op.s]) /\ ev.raises = "none"
+  /\ LET C == S.m[op.s] q == ev.ret.q IN
+     \/ \E r \in C.rxns :
+           \/ q.rev[r] # B01(Rev(C, r))
+           \/ q.bnd[r] # B01(Boundary(C, r))
+           \/ SeqSet(q.react[r]) # {m \in MetU : C.S[r][m] < 0}
+           \/ SeqSet(q.prod[r]) # {m \in MetU : C.S[r][m] > 0}
+           \/ SeqSet(q.comps[r]) # CompsOfRxn(C, r)
+           \/ q.mb[r] # MassBal(C, r)
+     \/ SeqSet(q.bset) # {r \in C.rxns : Boundary(C, r)}
+     \/ SeqSet(q.mcomps) # {C.attr[m].comp : m \in C.mets}
+     \/ HasExt(C) /\ \/ q.exok # 1
+                     \/ SeqSet(q.exch) # BoundaryTypeSet(C, "exchange")
+                     \/ SeqSet(q.dem) # BoundaryTypeSet(C, "demand")
+                     \/ SeqSet(q.sink) # BoundaryTypeSet(C, "sink")
 RetDiffers(ev, er) ==
   \/ ev.ret.x # ev.ret.x2          \* two identical calls of an analysis: identical uniquely defined outputs
   \/ SeqSet(ev.ret.ids) # er.ids
@@ -237,12 +262,19 @@ Next ==
                   THEN UNION {SlotTag(s, SlotDiff(ev.obs[s], E.m[s], Len(E.ctx[s]), E.helper[s])) : s \in Slots}
                        \cup (IF res.raises = "none" /\ RetDiffers(ev, ExpRet(op, st, res)) THEN {"ret"} ELSE {})
                        \cup (IF res.raises = "none" /\ ArithDiffers(ev, op, st) THEN {"arith"} ELSE {})
+                       \cup (IF res.raises = "none" /\ QueryDiffers(ev, op, st) THEN {"query"} ELSE {})
                   ELSE IF unexpectedRaise THEN {"raises"} ELSE {}
          nowBad == UNION {SlotTag(s, InvNames(ev.obs[s], E.helper[s])) : s \in Slots}
          os == IF "s" \in DOMAIN op THEN op.s ELSE 1
          hookBad == IF ev.hooks_on /\ op.a # "Copy" /\ op.a # "NewModel"
                     THEN SlotTag(os, HookFails(op, ev.hooks, mgr[os])) ELSE {}
-         newBad == (nowBad \ bad) \cup hookBad
+         \* C03, independent of the content model: the raw solver problem after an Exit is the one observed at the
+         \* matching Enter (also while an analysis helper holds the objective, which the content comparison skips)
+         digBad == IF /\ op.a = "Exit" /\ ev.raises = "none" /\ res.raises = "none" /\ ev.obs[os].present
+                       /\ Len(dig[os]) > 0 /\ Len(dig[os]) = Len(st.ctx[os]) /\ ~st.taint[os] /\ ~st.sw[os]
+                       /\ ev.obs[os].lp.dig # dig[os][Len(dig[os])]
+                    THEN SlotTag(os, {"ExitRestoresLP"}) ELSE {}
+         newBad == (nowBad \ bad) \cup hookBad \cup digBad
          \* the state to continue from: what the implementation really is (trees carried from exp)
          N == [m |-> [s \in Slots |-> ObsContent(ev.obs[s], E.m[s])],
                ctx |-> [s \in Slots |-> IF ev.obs[s].present /\ ev.obs[s].ctx = Len(E.ctx[s]) THEN E.ctx[s]
@@ -257,9 +289,16 @@ Next ==
                           inexact |-> (IF ev.obs[1].present THEN ev.obs[1].inexact ELSE <<>>)
                                        \o (IF ev.obs[2].present THEN ev.obs[2].inexact ELSE <<>>)]))
      /\ bad' = nowBad
-     /\ mgr' = [s \in Slots |-> IF op.a \in {"Copy"} /\ s = op.t THEN <<>>
+     /\ mgr' = [s \in Slots |-> IF op.a \in {"Copy", "MergeNew", "Prune"} /\ s = op.t THEN <<>>
                                  ELSE IF op.a = "NewModel" /\ s = os THEN <<>>
                                  ELSE IF s = os THEN MgrNext(op, ev.hooks, mgr[s], ev.raises) ELSE mgr[s]]
+     /\ dig' = [s \in Slots |-> IF op.a \in {"Copy", "MergeNew", "Prune"} /\ s = op.t THEN <<>>
+                                 ELSE IF op.a \in {"NewModel", "LoadDoc"} /\ s = os THEN <<>>
+                                 ELSE IF s = os /\ op.a = "Enter" /\ ev.raises = "none" /\ ev.obs[s].present
+                                      THEN Append(dig[s], ev.obs[s].lp.dig)
+                                 ELSE IF s = os /\ op.a = "Exit" /\ ev.raises # "skip" /\ Len(dig[s]) > 0
+                                      THEN SubSeq(dig[s], 1, Len(dig[s]) - 1)
+                                 ELSE dig[s]]
      /\ st' = N
      /\ ok' = \A s \in Slots : (IsModel(N.m[s]) => RulesInSync(ev.obs[s], N.m[s]))
   /\ l' = l + 1
